@@ -92,6 +92,24 @@ def run(chk):
                "function main() -> void { makeGarbage(); echo(\"dropped\"); for (int i = 0; i < %d; i = i + 1) { Node t = new Node(); } echo(\"end\"); }"
                % (fld, dt, " ".join("Node n%d = new Node();" % i for i in range(k)), ring, via, rng.choice([3, 20])))
         progs.append((src, None, "cycle-owned-tracked"))
+    # garbage cycles of objects that own qubits through a BASE class (the qubit field is inherited): whenever the cycle is wiped, the
+    # qubits' indices, their resets and their tracked records must be those of a run that never collects
+    for _ in range(60 if chk.thorough else 12):
+        fld = rng.choice(["@tracked public qubit q;", "public qubit q;", "public qubit[2] q;", "@tracked public qubit[2] q;"])
+        arr = "[2]" in fld
+        q0 = "q[0]" if arr else "q"
+        k = rng.randrange(2, 4)
+        ring = " ".join("n%d.other = n%d;" % (i, (i + 1) % k) for i in range(k))
+        prep = rng.choice(["x(n0.%s); measure n0.%s;" % (q0, q0), "x(n0.%s);" % q0, "h(n1.%s); measure n1.%s;" % (q0, q0), ""])
+        mid = rng.choice(["", "public int pad = 3;"])
+        src = ("class QBase { %s public constructor() -> QBase { } }\n"
+               "class QNode extends QBase { %s public QNode other; public constructor() -> QNode { super(); this.other = null; } }\n"
+               "class Plain { public Plain p; public constructor() -> Plain { this.p = null; } }\n"
+               "function make() -> void { %s %s %s }\n"
+               "function main() -> void { make(); echo(\"dropped\"); for (int i = 0; i < %d; i = i + 1) { Plain t = new Plain(); t.p = t; } "
+               "qubit z; x(z); bit r = measure z; echo(r); qubit[2] zz; x(zz[1]); bit r2 = measure zz[1]; echo(r2); echo(\"end\"); }"
+               % (fld, mid, " ".join("QNode n%d = new QNode();" % i for i in range(k)), ring, prep, rng.choice([3, 12])))
+        progs.append((src, None, "cycle-inherited-qubit"))
     for _fn, o in load_corpus("C11"):
         progs.append((o["source"], None, "corpus"))
     nsched = 8 if chk.thorough else 4
